@@ -9,19 +9,19 @@ import (
 )
 
 func init() {
-	register(&Rule{ID: "C01.R5", Min: 4,
+	register(&Rule{ID: "C01.R5", Min: 2,
 		Text: "the result argument of every ShouldAddOne call is the truncated value: the object it points to was last written by a truncating producer (quotient of QuoRem/Quo, Modf's integer part, SetInt64 of a constant) on every path to the call — round-to-even and 05up look at that digit",
 		Run:  ruleResultArgTruncated})
-	register(&Rule{ID: "C02.R5", Min: 3,
+	register(&Rule{ID: "C02.R5", Min: 1,
 		Text: "the subnormal boundary is the same everywhere: Rounder.Round, setExponent and Quo all treat a value as subnormal exactly when its adjusted exponent is < c.MinExponent (Quo's own rounding runs on the complementary >= edge)",
 		Run:  ruleSubnormalBoundary})
-	register(&Rule{ID: "C07.R5", Min: 5,
+	register(&Rule{ID: "C07.R5", Min: 7,
 		Text: "the digit count handed to setExponent is unknownNumDigits or a NumDigits result (never a string length or an estimate), and the final rounding of every composite operation runs under a context whose exponent limits are the caller's",
 		Run:  ruleSetExponentArgs})
 	register(&Rule{ID: "C08.R6", Min: 1,
 		Text: "coefficient parity is only used for values known to have exponent 0: every Coeff.Bit(0) test on a Decimal is paired with an Exponent == 0 test of the same value",
 		Run:  ruleParityNeedsExponentZero})
-	register(&Rule{ID: "C16.R4", Min: 6,
+	register(&Rule{ID: "C16.R4", Min: 5,
 		Text: "fast-path write-backs take value and sign from one helper: every updateInnerFromUint64(val, neg) passes neg=false, or (val, neg) are results #0/#1 of the same *Inline helper call (whose zero-sign rule is C16.R3), or is SetInt64's own split",
 		Run:  ruleFastPathWriteBack})
 }
